@@ -163,9 +163,14 @@ def filterBlock (s : St) (b : Block) : St :=
   let ops := if ops.isEmpty then ops else ops ++ [.putHeader b.number b.hash]
   ops.foldl applyOp s
 
-/-- `add_fetched_tx`: header mappings and the transaction with `tx_index = u32::MAX` -/
+/-- `add_fetched_tx`: header mappings and the transaction with `tx_index = u32::MAX`; a
+transaction already stored with its real index (by `filter_block`) is kept -/
 def addFetchedTx (s : St) (tx : Tx) (bn blockHash : Nat) : St :=
-  applyOp (applyOp s (.putHeader bn blockHash)) (.putTx tx.hash ⟨bn, U32_MAX_IDX, tx⟩)
+  let s1 := applyOp s (.putHeader bn blockHash)
+  let isIndexed : Bool := match lookup s.txs tx.hash with
+    | some r => decide (r.txi ≠ U32_MAX_IDX)
+    | none => false
+  if isIndexed then s1 else applyOp s1 (.putTx tx.hash ⟨bn, U32_MAX_IDX, tx⟩)
 
 def addFetchedHeader (s : St) (bn blockHash : Nat) : St := applyOp s (.putHeader bn blockHash)
 
@@ -174,10 +179,21 @@ def updateBlockNumber (s : St) (n : Nat) : St :=
   { s with scripts := s.scripts.map (fun e => if e.2 < n then (e.1, n) else e) }
 
 /-- the batch of `rollback_to_block` for one script: its history entries at or above
-`toNumber` (the implementation scans them in reverse key order; the writes of different entries
-touch different keys except for restored cells, see below) -/
+`toNumber`, scanned in reverse key order: a cell restored by an input entry of a later block is
+deleted again when the output entry of its (also rolled back) creating block is reached -/
+def histKeyLt (a b : HistKey) : Bool :=
+  a.bn < b.bn || (a.bn = b.bn && (a.txi < b.txi || (a.txi = b.txi &&
+    (a.ioi < b.ioi || (a.ioi = b.ioi && (!a.isOutput && b.isOutput))))))
+
+/-- descending key order (the reverse iterator of the implementation) -/
+def sortHistDesc (l : List (HistKey × Nat)) : List (HistKey × Nat) :=
+  let rec ins (x : HistKey × Nat) : List (HistKey × Nat) → List (HistKey × Nat)
+    | [] => [x]
+    | y :: ys => if histKeyLt y.1 x.1 then x :: y :: ys else y :: ins x ys
+  l.foldr ins []
+
 def rollbackScriptOps (s : St) (k : SKey) (toNumber : Nat) : List Op :=
-  let entries := s.hist.filter (fun e => e.1.s = k && toNumber ≤ e.1.bn)
+  let entries := sortHistDesc (s.hist.filter (fun e => e.1.s = k && toNumber ≤ e.1.bn))
   entries.flatMap (fun (hk, txh) =>
     if hk.isOutput then [Op.delCell ⟨k, hk.bn, hk.txi, hk.ioi⟩, .delHist hk]
     else
